@@ -47,11 +47,14 @@ def _values(A):
                 ("n2", lambda W: -2), ("n1", lambda W: -1), ("0", lambda W: 0), ("1", lambda W: 1), ("2", lambda W: 2),
                 ("5", lambda W: 5), ("half", lambda W: 1 << (W.bits(A) // 2)), ("nhalf", lambda W: -(1 << (W.bits(A) // 2))),
                 ("MAXm1", lambda W: rng(W, A)[1] - 1), ("MAX", lambda W: rng(W, A)[1]),
-                ("top2", lambda W: 1 << (W.bits(A) - 2))]
+                ("top2", lambda W: 1 << (W.bits(A) - 2)),
+                # machine-word boundaries: where a "fits in one primitive word" shortcut changes behaviour in a wide type
+                ("w64m1", lambda W: min((1 << 64) - 1, rng(W, A)[1])), ("w64", lambda W: min(1 << 64, rng(W, A)[1] - 2))]
     return [("0", lambda W: 0), ("1", lambda W: 1), ("2", lambda W: 2), ("5", lambda W: 5),
             ("half", lambda W: 1 << (W.bits(A) // 2)), ("halfm1", lambda W: (1 << (W.bits(A) // 2)) - 1),
             ("top", lambda W: 1 << (W.bits(A) - 1)), ("topm1", lambda W: (1 << (W.bits(A) - 1)) - 1),
-            ("MAXm1", lambda W: rng(W, A)[1] - 1), ("MAX", lambda W: rng(W, A)[1])]
+            ("MAXm1", lambda W: rng(W, A)[1] - 1), ("MAX", lambda W: rng(W, A)[1]),
+            ("w64m1", lambda W: min((1 << 64) - 1, rng(W, A)[1] - 3)), ("w64", lambda W: min(1 << 64, rng(W, A)[1] - 2))]
 
 
 SMALL = [False]         # rules that re-check a forwarding impl use a small boundary grid
